@@ -24,8 +24,8 @@ func factsWire() {
 	emitN("f_encListValueMaxSize", uint64(encoding.VerifListValueMaxSize))
 	emitN("f_capabilityMapSizeMax", uint64(bus.VerifCapabilityMapSizeMax))
 	emitStr("f_ObjectReferenceSignature", value.ObjectReferenceSignature)
-	emitStr("f_ObjectSignature", signature.ObjectSignature)
-	emitStr("f_MetaObjectSignature", signature.MetaObjectSignature)
+	emitStr("f_wire_ObjectSignature", signature.ObjectSignature)
+	emitStr("f_wire_MetaObjectSignature", signature.MetaObjectSignature)
 
 	// NewValue: solve := map[string]func{...}
 	f, fd := funcDecl("type/value/value.go", "", "NewValue")
